@@ -22,22 +22,24 @@ def runParse (cfg : String) (inp : List String) (obs : List String) : Option Ver
   -- (bytes dropped by an overrun or still pending are never glued to later ones)
   let integrity :=
     if mode != "P" then [] else
+    -- bytes given to SCPI_Input (in order) and lines handed straight to SCPI_Parse (in order) are two separate sources
     let stream := (inp.drop 4).foldl (fun (acc : Lexer.Bytes) ch =>
-      if ch == "-" then acc
-      else if ch.startsWith "=L" then acc ++ ((unhex (ch.drop 2).toString).getD [])
-      else if ch.startsWith "=" then acc
-      else acc ++ ((unhex ch).getD [])) []
-    let msgs := obs.filterMap (fun t => if t.startsWith "P" then unhex (t.drop 1).toString else none)
+      if ch == "-" ∨ ch.startsWith "=" then acc else acc ++ ((unhex ch).getD [])) []
+    let lines := (inp.drop 4).filterMap (fun ch => if ch.startsWith "=L" then some ((unhex (let h := (ch.drop 2).toString; if h.isEmpty then "-" else h)).getD []) else none)
+    let lines := lines.filter (!·.isEmpty)
+    let msgs := (obs.filterMap (fun t => if t.startsWith "P" then unhex (t.drop 1).toString else none)).filter (!·.isEmpty)
     let findFrom := fun (m : Lexer.Bytes) (start : Nat) =>
-      (List.range (stream.length + 1 - start - m.length + 1)).find? (fun k => ((stream.drop (start + k)).take m.length) == m)
-    let (_, bad) := msgs.foldl (fun (acc : Nat × Bool) m =>
-      if acc.2 ∨ m.isEmpty then acc
-      else if start_ok : acc.1 + m.length ≤ stream.length then
-        match findFrom m acc.1 with
-        | some k => (acc.1 + k + m.length, false)
-        | none => (acc.1, true)
-      else (acc.1, true)) (0, false)
-    if bad then ["C01.stream_integrity", "C02.stream_integrity", "C05.stream_integrity", "C06.stream_integrity", "C09.stream_integrity"] else []
+      if start + m.length > stream.length then none else
+      (List.range (stream.length - start - m.length + 1)).find? (fun k => ((stream.drop (start + k)).take m.length) == m)
+    -- every message is the next direct line, or a contiguous piece of the stream behind the previous piece (either reading may apply)
+    let rec ok : Nat → List Lexer.Bytes → Nat → List Lexer.Bytes → Bool
+      | 0, _, _, _ => true
+      | _, [], _, _ => true
+      | fuel+1, m :: ms, cur, ls =>
+        (match ls with | l :: lt => l == m && ok fuel ms cur lt | [] => false) ||
+        (match findFrom m cur with | some k => ok fuel ms (cur + k + m.length) ls | none => false)
+    if ok (msgs.length + 1) msgs 0 lines then [] else
+      ["C01.stream_integrity", "C02.stream_integrity", "C05.stream_integrity", "C06.stream_integrity", "C09.stream_integrity"]
   let tests := if obs.any (fun t => t == "V0" || t == "V1") then judgeTests cmds ra else []
   let rej := (residue ++ judgeParse mode cmds inp obs ++ judgeParams cmds ra ++ (if mode == "P" then [] else judgeParams cmds rb) ++ status ++ tests ++ integrity).eraseDups
   let tags := [mode] ++ parseTags obs ++ (if mode == "PU" then [if puConclusive inp then "unit_isolation_conclusive" else "unit_isolation_inconclusive"] else [])
